@@ -4,7 +4,7 @@
    passes the two halves through phase 1 again); on the unrepaired code the aspect-ratio
    clause is false (C11_halving_alone_refuted; 1x1 die, limit 1.5, n = 2). *)
 From FrameModel Require Import Num.QcTac Geometry.Rect Refine.Phase1 Refine.Phase1Facts
-  Refine.Phase2 Refine.Phase2Facts Refine.DieRefine Refine.DieFacts Refine.GridFacts.
+  Refine.Phase2 Refine.Phase2Facts Refine.DieRefine Refine.DieFacts Refine.GridFacts Refine.PermFacts.
 From Coq Require Import Permutation.
 Open Scope list_scope.
 Open Scope Qc_scope.
@@ -123,6 +123,19 @@ Theorem C11_die_split_greedy_sound : forall d r n, Forall wf (refinable d) -> re
     Forall (fun x => is_ground x = false) (spec d') /\ Forall (fun x => is_ground x = true) (ground d').
 Proof. exact die_split_greedy_sound. Qed.
 Print Assumptions C11_die_split_greedy_sound.
+
+(* the checker does not depend on the order of the list; the state the model's own algorithm
+   leaves in the Die (after the re-partition by tag) is admissible *)
+Theorem C11_phase2_ok_perm : forall p1 out out' r n, Permutation out out' ->
+  phase2_ok p1 out r n = phase2_ok p1 out' r n.
+Proof. exact phase2_ok_perm. Qed.
+Print Assumptions C11_phase2_ok_perm.
+
+Theorem C11_die_split_greedy_ok : forall d r n, Forall wf (refinable d) -> refinable d <> [] ->
+  (0 < n)%Z -> ar_limit < r ->
+  exists d', die_split_greedy d r n = Ok d' /\ die_split_ok d r n d' = true.
+Proof. exact die_split_greedy_ok. Qed.
+Print Assumptions C11_die_split_greedy_ok.
 
 Theorem C11_untouched : forall d r n d', die_split_greedy d r n = Ok d' ->
   bbox d' = bbox d /\ blockages d' = blockages d /\ fixedr d' = fixedr d.
